@@ -35,6 +35,10 @@ pub enum Op {
     SetConn(usize, bool, Option<u64>),
     SetWindow(usize, i64),
     RemoveConn(usize),
+    /// an IP-list reload that drops the uplinks whose bit is set, through the REAL apply_connection_changes (on a
+    /// stand-in link list with the same conn_ids and labels, and the world's own tracker); for the model: one
+    /// ORemoveConn per dropped uplink, lowest index first
+    Reload(u32),
 }
 
 pub fn op_lit(o: &Op) -> String {
@@ -57,6 +61,7 @@ pub fn op_lit(o: &Op) -> String {
         Op::SetConn(i, b, lr) => format!("OSetConn {} {} {}", i, boolc(*b), optz(lr.map(|v| v as i128))),
         Op::SetWindow(i, w) => format!("OSetWindow {} {}", i, z(*w as i128)),
         Op::RemoveConn(i) => format!("ORemoveConn {}", i),
+        Op::Reload(m) => format!("ORemoveConn {}", m.trailing_zeros()),                     // expanded by run_case
     }
 }
 
@@ -68,7 +73,7 @@ pub fn op_kind(o: &Op) -> &'static str {
         Op::CcAck(..) => "cc_ack", Op::CcNak(..) => "cc_nak", Op::Global(..) => "global",
         Op::MarkRecovery(..) => "mark_recovery", Op::ResetReconnect(..) => "reset_reconnect",
         Op::Reg3(..) => "reg3", Op::SetConn(..) => "set_conn", Op::SetWindow(..) => "set_window",
-        Op::RemoveConn(..) => "remove_conn",
+        Op::RemoveConn(..) => "remove_conn", Op::Reload(..) => "reload_dropping_uplinks",
     }
 }
 
@@ -179,6 +184,22 @@ impl World {
             Op::SetConn(i, b, lr) => { self.conns[i].connected = b; self.conns[i].last_received = lr; }
             Op::SetWindow(i, w) => self.conns[i].window = w as i32,
             Op::RemoveConn(i) => { let id = self.conns[i].conn_id; self.tracker.remove_connection(id) }
+            Op::Reload(mask) => {
+                use srtla_send::sender::{ConnIoMap, apply_connection_changes};
+                let host = "h"; let port = 9u16;
+                let mut standin: SmallVec<SrtlaConnection, 4> = SmallVec::new();
+                let mut keep: Vec<IpAddr> = vec![];
+                for (i, c) in self.conns.iter().enumerate() {
+                    let ip = IpAddr::V4(Ipv4Addr::new(127, 0, 0, 1 + i as u8));
+                    standin.push(SrtlaConnection::new_registering(c.conn_id, format!("{}:{} via {}", host, port, ip), ip, 0));
+                    if (mask >> i) & 1 == 0 { keep.push(ip); }
+                }
+                let mut io: ConnIoMap = Default::default();
+                let mut last = None;
+                let binder: std::sync::Arc<dyn srtla_send::net::UplinkBinder> = std::sync::Arc::new(srtla_send::net::SourceIpBinder);
+                let World { tracker, rt, .. } = self;
+                rt.block_on(apply_connection_changes(&mut standin, &mut io, &keep, host, port, &mut last, tracker, &binder));
+            }
         }
     }
 
@@ -282,6 +303,12 @@ pub fn run_case(n: usize, ops: &[Op]) -> (String, bool) {
             }
             Op::SrtlaAckRun(idx, s, k, c, t) =>
                 Some((1..=k).map(|j| (Op::SrtlaAckRun(idx, s, j, c, t), Op::SrtlaAck(idx, s + j as i64 - 1, c, t))).collect()),
+            Op::Reload(mask) => {
+                // cut after the j lowest dropped uplinks = a reload that drops only those
+                let mut v = vec![]; let mut m = 0u32;
+                for i in 0..n as u32 { if (mask >> i) & 1 == 1 { m |= 1 << i; v.push((Op::Reload(m), Op::RemoveConn(i as usize))); } }
+                Some(v)
+            }
             _ => None,
         };
         if let Some(items) = items {
@@ -569,7 +596,13 @@ pub fn gen_ops(rng: &mut Rng, profile: Profile, n: usize, len: usize) -> Vec<Op>
                         ops.push(Op::NakRun(s0, k as u32, t3));
                     }
                 }
-                else if r < 82 { let i = g.link(); ops.push(Op::RemoveConn(i)); }
+                else if r < 80 { let i = g.link(); ops.push(Op::RemoveConn(i)); }
+                else if r < 82 {
+                    // a reload dropping 1 .. n-1 uplinks at once (the survivors keep what the tracker knows of them)
+                    let mut m = (g.rng.below(1 << g.n) as u32) & ((1u32 << g.n) - 1);
+                    if m == (1u32 << g.n) - 1 { m &= !(1u32 << g.rng.below(g.n as u64)); }
+                    if m != 0 { ops.push(Op::Reload(m)); }
+                }
                 else if r < 88 { let t = g.tick(false); let top = g.next_seq; let a = top - g.rng.range(0, 40); if a >= 0 { ops.push(Op::SrtAck(a, t)); } }
                 else if r < 94 { let idx = g.link(); let t = g.tick(false); let s = g.some_seq(); if s >= 0 && s < (1i64 << 31) { ops.push(Op::SrtlaAck(idx, s, classic_case, t)); } }
                 else if r < 97 { let i = g.link(); ops.push(Op::MarkRecovery(i)); g.sent[i].clear(); }
